@@ -497,6 +497,16 @@ package eval
 //@   requires [parser] (and (PARSER $p) (LEAFPARSERS $p))
 //@   dyncallees parser.parseInt parser.parseStr parser.parseConst parser.parseVariable parser.parseUnknownVariable parser.parseList.$1
 
+// registration: a name that is built in or already registered is refused and nothing changes; otherwise exactly the entry
+// name -> op is added to the config's operator map (every other entry, and every other map, is kept).
+//@ func RegisterOperator C01 C10
+//@   requires [config] (and (not (= $cc 0)) (not (= (fld $cc OperatorMap) 0)) (not (= (global builtinOperators) 0)))
+//@   ensures [refused-iff-name-taken] (= (not (= $ret0 ENil)) (or (old (mapin (global builtinOperators) $name)) (old (mapin (fld $cc OperatorMap) $name))))
+//@   ensures [refusal-changes-nothing] (=> (not (= $ret0 ENil)) (forall ((k Int)) (! (and (= (mapin (fld $cc OperatorMap) k) (old (mapin (fld $cc OperatorMap) k))) (= (mapval (fld $cc OperatorMap) k) (old (mapval (fld $cc OperatorMap) k)))) :pattern ((mapin (fld $cc OperatorMap) k)))))
+//@   ensures [exactly-one-entry-added] (=> (= $ret0 ENil) (and (mapin (fld $cc OperatorMap) $name) (= (mapget (fld $cc OperatorMap) $name) $op)
+//@        (forall ((k Int)) (! (=> (not (= k $name)) (and (= (mapin (fld $cc OperatorMap) k) (old (mapin (fld $cc OperatorMap) k))) (= (mapval (fld $cc OperatorMap) k) (old (mapval (fld $cc OperatorMap) k))))) :pattern ((mapin (fld $cc OperatorMap) k))))))
+//@   ensures [same-map-object] (= (fld $cc OperatorMap) (old (fld $cc OperatorMap)))
+
 // operator lookup: a built-in name always denotes the built-in operator (a registered operator of the same name never
 // shadows it - constant folding relies on that: isStatelessOp folds with the built-in table); any other name denotes
 // the registered operator, if there is one.
